@@ -282,10 +282,10 @@ def run(tier="quick", root="/repo", evidence_dir=None, quiet=False):
     f = repo.method("PeriodicGrid", "get_localgrid")
     if f.cls != "PeriodicGrid":
         raise AnalysisError("anchor vanished: PeriodicGrid.get_localgrid override")
-    ns = rule_r1(rep, repo, f)
-    rule_r2(rep, repo)
-    rule_r3(rep, repo, f)
-    rule_r5(rep, repo)
+    ns = rep.attempt(rule_r1, rep, repo, f) or 0
+    rep.attempt(rule_r2, rep, repo)
+    rep.attempt(rule_r3, rep, repo, f)
+    rep.attempt(rule_r5, rep, repo)
     # R4: C10 rules on this override
     from gridlint.props import c10
     sub = Report("C10", tier, root, "", "")
